@@ -63,7 +63,7 @@ def bounds(tier):
 
 def required_regimes(tier):
     return {'fam:dwt1d', 'fam:dwt2d', 'fam:swt', 'fam:dtcwt', 'dir:fwd', 'dir:inv', 'dir:fwd_bwd', 'dir:inv_bwd', 'zero', 'pairs', 'scales',
-            'slices', 'layout:nondefault', 'odd_size', 'dtcwt:mode_zero'}
+            'slices', 'layout:nondefault', 'odd_size', 'dtcwt:mode_zero', 'many_channels'}
 
 
 # ---- transform descriptors: canon(tensor) puts (N, C) in front ------------------------------------------------------------
@@ -289,6 +289,29 @@ def run(item):
             if bad:
                 res.violation('slice_independence', dict(cfg, N=N, C=C), bad, tags)
     res.regime('slices')
+    # many channels (beyond any block size a grouped implementation might use): channel c carries impulse (7c mod P); every
+    # output slice must be the corresponding column of the single-slice operator
+    if item['dir'] in ('fwd', 'inv') and P <= 64:
+        for Cbig in (65, 130):
+            ins = []
+            off = 0
+            sel = [(7 * c) % P for c in range(Cbig)]
+            for s_ in in_shapes:
+                m = int(np.prod(s_))
+                t = torch.zeros((1, Cbig) + tuple(s_))
+                for c, i in enumerate(sel):
+                    if off <= i < off + m:
+                        t[0, c].reshape(-1)[i - off] = 1.0
+                off += m
+                ins.append(t)
+            with torch.enable_grad():
+                Y = _cat(T(ins)).detach().numpy()[0]          # (Cbig, M)
+            res['evals'] += Cbig
+            E = A[:, sel].T
+            if Y.shape != E.shape or np.abs(Y - E).max() > 1e-13 * gain:
+                cbad = int(np.abs(Y - E).max(axis=1).argmax()) if Y.shape == E.shape else -1
+                res.violation('slice_independence', dict(cfg, N=1, C=Cbig), {'kind': 'many_channels', 'first_bad_channel': cbad}, tags)
+        res.regime('many_channels')
     if item['fam'] == 'dtcwt' and item['dir'] == 'fwd' and item['J'] == 2 and item['shape'] == [4, 6]:
         res.sample({'config': cfg, 'inputs_per_slice': P, 'outputs_per_slice': int(M), 'pairs': len(pairs), 'coefficient_grid': COEFS})
     if item['fam'] == 'dwt1d' and item['dir'] == 'inv_bwd' and item['J'] == 3 and item['shape'] == [13] and item['wave'] == 'db2' and item['mode'] == 'zero':
